@@ -260,6 +260,22 @@ class Normalizer:
                     keep.add(F.root_of(b))
         return keep
 
+    def _extractor_phase(self, root, _d=0):
+        """is `root` (a pure fallible helper) called from the extractor, directly or through other such helpers?"""
+        if _d > 3:
+            return False
+        for c in self.F.callers.get(root, []):
+            cr = self.F.root_of(c.body)
+            cbb = self.F.by_cdef.get(cr)
+            rb = self.F.by_cdef.get(root)
+            if cbb is None or rb is None or cbb.span.get("f") != rb.span.get("f"):
+                continue
+            if re.match(r"^std::result::Result<std::option::Option<messages::TrampolineInfo>", cbb.ret_ty or ""):
+                return True
+            if cr != root and self._extractor_phase(cr, _d + 1):
+                return True
+        return False
+
     def kept(self, host_root, callee):
         F = self.F
         cb = F.by_cdef.get(callee)
@@ -283,6 +299,17 @@ class Normalizer:
             # verdict helpers: `fn check(..) -> Option<HtlcAcceptedResponse>` (a rejection or nothing)
             if re.match(r"^std::option::Option<messages::HtlcAcceptedResponse>$", cb.ret_ty or ""):
                 return False
+            # phases of the extractor: `fn parse_invoice(..) -> Result<Bolt11Invoice>` called with `?` from the function that
+            # classifies the metadata (-> Result<Option<TrampolineInfo>>) or from another such phase: the gates they contain
+            # (hash, signature, amount table) guard what the extractor builds, exactly as when written inline
+            anyres = r"^std::result::Result<.*, anyhow::Error>$"
+            opt_params = any((cb.local_ty(i) or "").startswith("std::option::Option<") for i in range(1, cb.arg_count + 1))
+            # (a helper that only combines already-extracted optional values - `reconcile(invoice_amount, tlv_amount)` - is
+            # followed at expression level, parameters bound to the arguments)
+            if re.match(anyres, cb.ret_ty or "") and not opt_params and not re.match(r"^std::result::Result<std::option::Option<messages::TrampolineInfo>", cb.ret_ty or ""):
+                hrt = hb.ret_ty or ""
+                if re.match(r"^std::result::Result<std::option::Option<messages::TrampolineInfo>", hrt) or (re.match(anyres, hrt) and not self.effectful(host_root) and self._extractor_phase(host_root)):
+                    return False
             return True
         return False
 
